@@ -458,10 +458,18 @@ def check_kappa(case, v: Verdict):
                 lo_ = max(vmin, 0.05)
                 vother = lo_ + float(case["hist_u"]) * max(0.0, min(cb, vJ) - 1e-3 - lo_)
             try:
-                kother = float(hyd.efficiencyFactor(vother))
-                kagain = float(hyd.efficiencyFactor(vw))
+                ro = hyd.findMatching(vother)
+                if any(x is None for x in ro) or not all(_is_num(x) for x in ro) or not (
+                        0.0 < float(ro[0]) < 1.0 and 0.0 < float(ro[1]) < 1.0 and float(ro[2]) > 0.0 and float(ro[3]) > 0.0):
+                    kother = None    # no matching at the other velocity (e.g. beyond the template's range): no history
+                else:
+                    kother = float(hyd.efficiencyFactor(vother))
+                    kagain = float(hyd.efficiencyFactor(vw))
             except WallGoError:
                 v.label("kappa-history:WallGoError")
+                kother = None
+            if kother is None:
+                v.label("kappa-history:no-other-matching")
             else:
                 v.checked("kappa-history")
                 v.label("kappa-history")
@@ -482,7 +490,7 @@ def check_kappa(case, v: Verdict):
     near_vj = -0.1 <= vw - vJ <= 0.01
     if near_vj:
         v.label("near-vJ")
-    cls = f"{solver}/{fam}/{branch}/{bucket}" + ("/near-vJ" if near_vj else "")
+    cls = f"{solver}/{fam}/{branch}/{bucket}" + ("/near-vJ" if near_vj else "") + ("/at-vJ" if vw == vJ else "")
     try:
         kref, ksw, krw = R.kappa(eos, Tn, vw, vp, vm, Tp, Tm)
         vp6, vm6, Tp6, Tm6 = out[1e-6][1]
